@@ -344,6 +344,35 @@ func init() {
 			}
 		}})
 
+	register(&Rule{ID: "C12.R6", Props: []string{"C12", "C10"}, Min: 2, Needs: NeedMain,
+		Doc: "a request stays in flight until its response is written: in each handler closure no write of the response can follow the decrement of the in-flight counter (the decrement is deferred or comes after the write on every path), because the drain test closes the connection as soon as the counter reads 0",
+		Run: func(r *R) {
+			for _, cl := range handlerClosures(r.w) {
+				var decs, writes []ssa.Instruction
+				eachInstr(cl, func(in ssa.Instruction) {
+					if _, d, ok := atomicAddOn(in); ok && d < 0 {
+						decs = append(decs, in)
+					}
+					c := callCommon(in)
+					if c != nil && ((c.IsInvoke() && c.Method.Name() == "Write" && isNetConn(c.Value.Type())) || funcID(calleeObj(c)) == "net.(UDPConn).WriteToUDP") {
+						writes = append(writes, in)
+					}
+				})
+				okk := len(decs) > 0
+				for _, d := range decs {
+					if _, isDefer := d.(*ssa.Defer); isDefer {
+						continue
+					}
+					for _, w := range writes {
+						if reaches(d, w) {
+							okk = false
+						}
+					}
+				}
+				r.Check(okk, fname(cl), "in-flight until the response is written", cl.Pos(), "the counter is decremented by a defer / after the write", "the in-flight counter is decremented before the response is written: during shutdown the connection looks drained and is closed while a (large or slowly read) response is still being written")
+			}
+		}})
+
 	register(&Rule{ID: "C12.R5", Props: []string{"C12"}, Min: 2, Needs: NeedMain,
 		Doc: "a request counts as in flight from the moment it is read: the in-flight counter decremented by a handler closure is incremented in the enclosing function, before the closure is handed to the pool / started, never inside the closure",
 		Run: func(r *R) {
